@@ -16,6 +16,15 @@ ND_ROOTS = {
 
 UNITS = [
     dict(
+        id="calendar",
+        package="compact-calendar",
+        owner="compact-calendar/src/lib.rs",
+        harness="kani/calendar/verif_calendar.rs",
+        modname="verif_calendar",
+        modpath="verif_calendar",
+        contracts="contracts/compact_calendar.contracts",
+    ),
+    dict(
         id="syntax.extended_time",
         package="opening-hours-syntax",
         owner="opening-hours-syntax/src/extended_time.rs",
@@ -45,6 +54,12 @@ COMMON_ASSUMPTIONS = [
 
 # Per-property level and the clauses of the statement that no obligation speaks to.
 PROPS = {
+    "C15": dict(
+        level="other",
+        technique="Kani function contracts, modular (month -> year -> calendar via stub_verified)",
+        level_text="TODO",
+        level_note="TODO",
+    ),
     "C19": dict(
         level="proof",
         technique="function contracts: Verus on verbatim-extracted bodies + Kani full-domain contract harnesses",
